@@ -189,27 +189,32 @@ func (m *UnboundedFairMailbox) Enqueue(msg *ReceiveContext) error {
 // Single consumer
 // - Must be called by exactly one goroutine (the actor’s receiver loop).
 func (m *UnboundedFairMailbox) Dequeue() (msg *ReceiveContext) {
-	sq := m.active.dequeue()
-	if sq == nil {
-		return nil
-	}
-
-	msg = sq.mailbox.Dequeue()
-	if msg == nil {
-		// per‑sender queue was drained concurrently; mark inactive, then look
-		// again: a producer may have linked a message and read the flag while it
-		// was still set, in which case nobody else would re-activate the sender
-		sq.active.Store(false)
-		if !sq.mailbox.IsEmpty() && sq.active.CompareAndSwap(false, true) {
-			m.active.enqueue(sq)
+	for {
+		sq := m.active.dequeue()
+		if sq == nil {
+			return nil
 		}
+
+		msg = sq.mailbox.Dequeue()
+		if msg == nil {
+			// per‑sender queue was drained concurrently; mark inactive, then look
+			// again: a producer may have linked a message and read the flag while it
+			// was still set, in which case nobody else would re-activate the sender
+			sq.active.Store(false)
+			if !sq.mailbox.IsEmpty() && sq.active.CompareAndSwap(false, true) {
+				m.active.enqueue(sq)
+			}
+			// an activation of a sender whose message was already consumed is
+			// not a reason to report the whole mailbox empty: other senders may
+			// be waiting behind it
+			continue
+		}
+
+		atomic.AddInt64(&m.length, -1)
+		remaining := atomic.AddInt64(&sq.pending, -1)
+		m.finalizeSender(sq, remaining)
 		return
 	}
-
-	atomic.AddInt64(&m.length, -1)
-	remaining := atomic.AddInt64(&sq.pending, -1)
-	m.finalizeSender(sq, remaining)
-	return
 }
 
 func (m *UnboundedFairMailbox) finalizeSender(sq *senderBox, remaining int64) {
